@@ -944,9 +944,9 @@ func gen(w *bufio.Writer, args map[string]string) {
 		em.lines = append(em.lines, line{"sha " + sup.Hx(string(b)), 1})
 	}
 
-	reps, permMax, bigN, nRand := 50, 5, 2000, 150
+	reps, permMax, bigN, nRand := 50, 5, 2000, 600
 	if thorough {
-		reps, permMax, bigN, nRand = 500, 7, 10000, 1500
+		reps, permMax, bigN, nRand = 500, 7, 10000, 5000
 	}
 
 	switch prop {
@@ -998,7 +998,7 @@ func genC04(em *emitter, thorough bool, reps, permMax, bigN, nRand, ncpu int) {
 	}
 	// one-edit neighbours of every base collection
 	for _, b := range bs {
-		em.emitChunks(0, 10, b, edits(b, rng, 0), 10)
+		em.emitChunks(0, reps/5, b, edits(b, rng, 0), 10)
 	}
 	// sizes around the worker-count boundary min(NumCPU, len): 0 … 4·NumCPU
 	for n := 0; n <= 4*ncpu; n++ {
@@ -1008,7 +1008,7 @@ func genC04(em *emitter, thorough bool, reps, permMax, bigN, nRand, ncpu int) {
 			vs = append(vs, variant{"remove", clone(b[:n-1])}, variant{"content", setContent(b, b[n/2].rel, "changed")})
 		}
 		vs = append(vs, variant{"add", insertAt(b, rng.Intn(n+1), f("s/new", "1"))}, variant{"dirs", insertAt(b, rng.Intn(n+1), d("s"))})
-		em.emit(0, 20, append([]variant{{"base", b}}, vs...))
+		em.emit(0, reps*2/5, append([]variant{{"base", b}}, vs...))
 	}
 	// fewer CPUs than files: NumCPU = 1, 2, 3 (sub-process with restricted affinity)
 	for _, c := range []int{1, 2, 3} {
@@ -1018,7 +1018,7 @@ func genC04(em *emitter, thorough bool, reps, permMax, bigN, nRand, ncpu int) {
 			if n > 0 {
 				vs = append(vs, variant{"remove", clone(b[1:])})
 			}
-			em.emit(c, 20, append([]variant{{"base", b}}, vs...))
+			em.emit(c, reps*2/5, append([]variant{{"base", b}}, vs...))
 		}
 	}
 	// a long list
@@ -1031,7 +1031,7 @@ func genC04(em *emitter, thorough bool, reps, permMax, bigN, nRand, ncpu int) {
 		b := randColl(rng, 6)
 		vs := []variant{{"perm", shuffled(b, rng)}, {"perm", shuffled(b, rng)}}
 		vs = append(vs, edits(b, rng, 6)...)
-		em.emit(0, 8, append([]variant{{"base", b}}, vs...))
+		em.emit(0, 4+reps/12, append([]variant{{"base", b}}, vs...))
 	}
 }
 
@@ -1110,6 +1110,6 @@ func genC18(em *emitter, thorough bool, reps, bigN, nRand, ncpu int) {
 		for j := 0; j < nf; j++ {
 			c = insertAt(c, rng.Intn(len(c)+1), faultEntry(kinds[rng.Intn(len(kinds))], j))
 		}
-		em.emit(0, 10, []variant{{"base", c}, {"perm", shuffled(c, rng)}, {"other", b}})
+		em.emit(0, 5+reps/10, []variant{{"base", c}, {"perm", shuffled(c, rng)}, {"other", b}})
 	}
 }
